@@ -747,3 +747,17 @@ Definition explain (c : case) : explanation :=
   | CAbi args _ _ => EAbi (abi_encode args)
   | CEth msg _ _ => EEth (eth_signed_preimage msg) (client_eth_preimage msg)
   end.
+
+(* ------------------------------------------------------------------ Part 5: Prop reading of [valid_inb]
+   (Proofs/C40.v valid_inb_sound); used as the premise of the theorems in Props/C40.v *)
+Definition valid_in (p : params) (quorum : N) (i : dkg_in) : Prop :=
+  let n := lenN (i_members i) in
+  n = groupSize p /\ n <= 255
+  /\ 1 <= quorum /\ groupThreshold p <= quorum /\ activeThreshold p <= quorum
+  /\ NoDup (i_misbehaved i) /\ (forall m, In m (i_misbehaved i) -> 1 <= m <= n)
+  /\ NoDup (i_operating i)
+  /\ (forall k, In k (i_operating i) <-> (1 <= k <= n /\ ~ In k (i_misbehaved i)))
+  /\ NoDup (map fst (i_sigs i))
+  /\ (forall k s, In (k, s) (i_sigs i) -> In k (i_operating i) /\ lenN s = 65)
+  /\ quorum <= lenN (i_sigs i)
+  /\ i_x i < two256 /\ i_y i < two256 /\ i_start i < 2 ^ 63 /\ i_chainid i < two256.
